@@ -81,21 +81,26 @@ def main(pid, tier='quick', seed=None, replay=None):
     trusted = list(getattr(mod, 'TRUSTED', []))
 
     # 1. proofs -----------------------------------------------------------------------------
-    rc, out = lib.build_theories()
+    rc, out = lib.build_theories(pid)
     props = {'theorems': [], 'ok': False, 'axioms': [], 'closed': 0, 'log': ''}
+    coq_imports, verdict_fn = mod.COQ_IMPORTS, getattr(mod, 'VERDICT', None)
+    proof_broken = None          # reported after the search for a failing input (step 3)
+    model_ok = rc == 0
     if rc != 0:
-        path = lib.write_replay(pid, seed, 'build', {'kind': 'proof-build-failed', 'log': out[-6000:],
-                                                     'obligation': 'make in /verif/coq'})
-        violation(pid, path, 'no-failing-input-found')
-        nviol += 1
+        proof_broken = {'kind': 'proof-build-failed', 'log': out[-6000:],
+                        'obligation': 'make theories/Props/%s.vo in /verif/coq' % pid}
+        if hasattr(mod, 'FALLBACK'):
+            # the theorems no longer check: keep the hand-written model running to search for a failing input
+            fb = mod.FALLBACK
+            rcm, outm = lib.build_targets(fb['targets'])
+            if rcm == 0:
+                model_ok = True
+                coq_imports, verdict_fn = fb['imports'], fb['verdict']
     else:
         props = lib.check_props_file(pid, workdir)
         if not props['ok']:
-            path = lib.write_replay(pid, seed, 'props', {'kind': 'property-theorems-do-not-check',
-                                                         'file': 'coq/theories/Props/%s.v' % pid,
-                                                         'theorems': props['theorems'], 'log': props['log']})
-            violation(pid, path, 'no-failing-input-found')
-            nviol += 1
+            proof_broken = {'kind': 'property-theorems-do-not-check', 'file': 'coq/theories/Props/%s.v' % pid,
+                            'theorems': props['theorems'], 'log': props['log']}
 
     # 2. cases ------------------------------------------------------------------------------
     rng = random.Random(seed)
@@ -126,7 +131,7 @@ def main(pid, tier='quick', seed=None, replay=None):
         violation(pid, path)
         nviol += 1
         cases = []
-    elif rc == 0:
+    elif model_ok:
         obs = observe_all(modname, cases)
         terms = []
         idx = []
@@ -147,7 +152,7 @@ def main(pid, tier='quick', seed=None, replay=None):
         try:
             if getattr(mod, 'MODE', 'eval') == 'goals':
                 vs = []
-                gres = lib.run_coq_goals(pid, workdir, mod.COQ_IMPORTS, terms, shard=getattr(mod, 'SHARD', 40),
+                gres = lib.run_coq_goals(pid, workdir, coq_imports, terms, shard=getattr(mod, 'SHARD', 40),
                                          preamble=getattr(mod, 'PREAMBLE', ''))
                 for item, r in zip(terms, gres):
                     extra['goals'] = extra.get('goals', 0) + len(r)
@@ -163,7 +168,7 @@ def main(pid, tier='quick', seed=None, replay=None):
                         vs.append((0, 0))
                     item['verdicts'] = r
             else:
-                vs = lib.run_coq_cases(pid, workdir, mod.COQ_IMPORTS, mod.VERDICT, terms,
+                vs = lib.run_coq_cases(pid, workdir, coq_imports, verdict_fn, terms,
                                        shard=getattr(mod, 'SHARD', 200),
                                        preamble=getattr(mod, 'PREAMBLE', ''))
         except RuntimeError as e:
@@ -230,8 +235,8 @@ def main(pid, tier='quick', seed=None, replay=None):
                         nterms = [mod.to_coq(a, b) for a, b in zip(ns, nobs) if 'harness_error' not in b]
                         nkeep = [(a, b) for a, b in zip(ns, nobs) if 'harness_error' not in b]
                         try:
-                            nvs = lib.run_coq_cases(pid, os.path.join(workdir, 'nb%d' % i), mod.COQ_IMPORTS,
-                                                    mod.VERDICT, nterms, preamble=getattr(mod, 'PREAMBLE', ''))
+                            nvs = lib.run_coq_cases(pid, os.path.join(workdir, 'nb%d' % i), coq_imports,
+                                                    verdict_fn, nterms, preamble=getattr(mod, 'PREAMBLE', ''))
                         except RuntimeError:
                             nvs = []
                         for (a, b), nv in zip(nkeep, nvs):
@@ -249,6 +254,18 @@ def main(pid, tier='quick', seed=None, replay=None):
                         payload['obligation'] = '%s.corr: dit observation = model (coq/theories/Model)' % pid
                         path = lib.write_replay(pid, seed, i, payload)
                         violation(pid, path, 'no-failing-input-found')
+
+    if proof_broken is not None:
+        # a proof obligation no longer checks.  If the search above exhibited a concrete failing input, its
+        # VIOLATION lines carry the replay; otherwise the property is no longer shown to hold: report that.
+        found = any(v is not None and v[1] != 0 for v in verdicts)
+        proof_broken['failing_input_found_by_correspondence'] = found
+        path = lib.write_replay(pid, seed, 'proof', proof_broken)
+        if not found:
+            violation(pid, path, 'no-failing-input-found')
+        else:
+            print('proof obligation broken as well: %s' % path)
+        nviol += 1
 
     # 4. evidence ---------------------------------------------------------------------------
     keys = set()
